@@ -705,6 +705,7 @@ func refuseFlood(t *testing.T, n int) {
 	runtime.GC()
 	fd0, g0 := fix.FDCount(0), runtime.NumGoroutine()
 	refused := 0
+	gcOn := fix.NoGC()
 	for i := 0; i < n; i++ {
 		ww := w
 		if i%3 == 0 {
@@ -715,8 +716,10 @@ func refuseFlood(t *testing.T, n int) {
 			refused++
 		}
 	}
+	fd1 := fix.FDCount(0) // before any collection: finalizers would close what was left open
+	gcOn()
 	runtime.GC()
-	fd1, g1 := fix.FDCount(0), runtime.NumGoroutine()
+	g1 := runtime.NumGoroutine()
 	after, _ := digest(path)
 	c := &ClobberCase{Pre: PIndex, Random: []byte{1}}
 	evid.Case(true, fmt.Sprintf("refuse flood: %d Flush calls onto an existing index, %d refused; descriptors %d -> %d, goroutines %d -> %d", n, refused, fd0, fd1, g0, g1), "refuse-flood")
